@@ -324,6 +324,8 @@ m('c19-frac-add', 'C19', 'clock/time.rs', '\t\tlet fraction = (self.fraction + t
 m('ctrl-c19-frac', 'C19', 'clock/time.rs', '\t\tlet fraction = ((self.fraction - ticks).fract() + 1.0) % 1.0;',
   '\t\tlet difference = self.fraction - ticks;\n\t\tlet wrapped = difference.fract() + 1.0;\n\t\tlet fraction = wrapped % 1.0;', 'NONE',
   'the same expression through locals')
+m('c19-frac-ctor', 'C19', 'clock/time.rs', '\t\t// a clock time cannot be negative (and the fraction must stay in 0..1)\n\t\tlet ticks = ticks.max(0.0);\n', '',
+  'B.C19.frac|ctor', 'from_ticks_f64 without the clamp: a negative amount gives a negative fraction', reverse_of='from_ticks_f64(-0.25)')
 m('c19-silence', 'C19', 'decibels.rs', '\t\tif self <= Self::SILENCE {\n\t\t\treturn 0.0;\n\t\t}\n', '', 'B.C19.db', '-60 dB is no longer exact silence')
 m('c19-center', 'C19', 'frame.rs', '\t\tif panning == Panning::CENTER {\n\t\t\treturn self;\n\t\t}\n', '', 'B.C19.pan', 'centre panning no longer returns the frame untouched')
 m('c19-cmp', 'C19', 'clock/time.rs', '\t\tif self.clock != other.clock {\n\t\t\treturn None;\n\t\t}\n', '', 'B.C19.cmp', 'times of different clocks compare as ordered')
